@@ -58,8 +58,11 @@ def main():
         pkgs = sorted({"./" + os.path.dirname(f) + "/" for f in files if f.endswith(".go")})
         res["packages"] = pkgs
         # demo
-        demo_dir = meta.get("demo_dir")
+        demo_dir = (meta.get("demo_dir") or "").split()[0].rstrip("/") if meta.get("demo_dir") else None
         demo_cmd = meta.get("demo_cmd")
+        if demo_cmd:
+            # the demo file is copied by this script: drop a leading `cp ... &&` (and `cd ... &&`) from the author's command
+            demo_cmd = re.sub(r"^\s*((cp|cd|mkdir)\s[^&]*&&\s*)+", "", demo_cmd)
         demos = [f for f in glob.glob(os.path.join(mdir, "*_test.go"))]
         if demo_dir and demo_cmd and demos:
             dd = os.path.join(wt, demo_dir.replace(wt, "").lstrip("/")) if not os.path.isabs(demo_dir) else os.path.join(wt, os.path.relpath(demo_dir, re.match(r"(/tmp/[^/]+)", demo_dir).group(1)) if demo_dir.startswith("/tmp/") else demo_dir.lstrip("/"))
@@ -90,6 +93,8 @@ def main():
             res["pkg_tests_s"] = int(time.time() - t0)
             if rc != 0:
                 res["pkg_tests_tail"] = "\n".join(l for l in out.splitlines() if l.startswith(("--- FAIL", "FAIL", "panic")))[-800:]
+        if "--demo-only" in sys.argv:
+            raise SystemExit
         # the check, in a private copy of /verif
         sh("rsync -a --exclude '.build/*/' --exclude replays --exclude .git /verif/ %s/" % vm)
         os.makedirs(os.path.join(vm, "replays"), exist_ok=True)
@@ -101,6 +106,8 @@ def main():
         res["check_lines"] = [l for l in out.splitlines() if l.startswith(("VIOLATION", "KNOWN-FINDING", "OK ", "  what:"))][:8]
         res["caught"] = rc == 1 and any(l.startswith("VIOLATION") for l in out.splitlines())
         res["with_input"] = any(l.startswith("VIOLATION") and "no-failing-input-found" not in l for l in out.splitlines())
+    except SystemExit:
+        pass
     finally:
         if "--keep" not in sys.argv:
             sh("git -C /repo worktree remove --force %s" % wt)
@@ -108,6 +115,18 @@ def main():
             shutil.rmtree(wt, ignore_errors=True)
     print(json.dumps(res))
     # runs on an archived seeded change refresh its result.json (only complete runs)
+    if mdir.startswith("/verif/seeded/") and "--demo-only" in sys.argv and "demo_fails_with_patch" in res:
+        try:
+            rp = os.path.join(mdir, "result.json")
+            old = json.loads(open(rp).read().strip().splitlines()[-1])
+            for k in ("demo_fails_with_patch", "demo_passes_without_patch", "demo_clean_tail"):
+                if k in res:
+                    old[k] = res[k]
+                elif k in old and k == "demo_clean_tail":
+                    del old[k]
+            open(rp, "w").write(json.dumps(old) + "\n")
+        except Exception:
+            pass
     if mdir.startswith("/verif/seeded/") and "check_rc" in res:
         try:
             old = {}
